@@ -334,7 +334,10 @@ func (p *nriPlugin) StopPodSandbox(ctx context.Context, podSandbox *api.PodSandb
 	b := metrics.Block()
 	defer b.Done()
 
-	pod, _ := m.cache.LookupPod(podSandbox.GetId())
+	pod, ok := m.cache.LookupPod(podSandbox.GetId())
+	if !ok {
+		return nil
+	}
 	released := slices.Clone(pod.GetContainers())
 	m.agent.PurgePodResources(pod.GetNamespace(), pod.GetName())
 
@@ -374,7 +377,10 @@ func (p *nriPlugin) RemovePodSandbox(ctx context.Context, podSandbox *api.PodSan
 	b := metrics.Block()
 	defer b.Done()
 
-	pod, _ := m.cache.LookupPod(podSandbox.GetId())
+	pod, ok := m.cache.LookupPod(podSandbox.GetId())
+	if !ok {
+		return nil
+	}
 	released := slices.Clone(pod.GetContainers())
 	m.agent.PurgePodResources(pod.GetNamespace(), pod.GetName())
 
